@@ -139,13 +139,23 @@ class Target:
 class Link:
     def __init__(self, target):
         self.t = target
+        self.held = None
+
+    def _flush(self):
+        # like the radio driver, the link takes the packet OBJECT into a one-place queue and serialises it when the radio
+        # gets to it - here: when the next packet is handed over or an answer is asked for
+        if self.held is not None:
+            pk, self.held = self.held, None
+            self.t.handle(pk.header, bytes(pk.data))
 
     def send_packet(self, pk):
-        self.t.handle(pk.header, bytes(pk.data))
+        self._flush()
+        self.held = pk
         return True
 
     def receive_packet(self, wait=0):
         from cflib.crtp.crtpstack import CRTPPacket
+        self._flush()
         if self.t.out:
             d = self.t.out.pop(0)
             pk = CRTPPacket(0xFF, list(d))
